@@ -32,7 +32,7 @@ SPEC = dict(
                 "DeltaSetIndexMap::pack_map_data's choice of entry format and the skrifa metrics glue (scaling, gvar fallback) are covered by correspondence "
                 "and the oracle only. Two recorded 16.16 range limits of the metrics pipeline are known findings."),
     technique="Coq proof (lia/nia over Z, list induction) over hand-written Gallina model + vm_compute correspondence with read-fonts/write-fonts/skrifa",
-    modelled=["read-fonts/src/tables/fvar.rs: VariationAxisRecord::normalize, Fvar::user_to_normalized (one axis, avar v1)",
+    modelled=["read-fonts/src/tables/fvar.rs: VariationAxisRecord::normalize, Fvar::user_to_normalized (all axes, shared tags, caller-provided output slice of any length and content; avar absent or v1); skrifa AxisCollection::location_to_slice by correspondence",
               "read-fonts/src/tables/avar.rs: SegmentMaps::apply",
               "read-fonts/src/tables/variations.rs: VariationRegion::compute_scalar, ItemVariationStore::compute_delta, ItemVariationData::{delta_set, delta_row_len} (ItemDeltas), DeltaSetIndexMap::get, advance_delta",
               "write-fonts/src/tables/variations.rs: DeltaSetIndexMap::{get_entry_format, pack_map_data}",
